@@ -108,6 +108,12 @@ def depth_boundary_pass(ctx, dist):
             text = '{"a":' * d + "1" + "}" * d
             cases.append(["history", None, hist.stream_history([{"x": {"$decode": "json", "$value": text}}])])
             meta.append(("decoded", d))
+        # the interpolation guard: k0 -> k1 -> ... -> k<d> = "end", each a template naming the next
+        for d in (range(996, 1003) if ctx.tier == "thorough" else (999, 1000)):
+            doc = {"k%04d" % i: '$"{k%04d}"' % (i + 1) for i in range(d)}
+            doc["k%04d" % d] = "end"
+            cases.append(["history", None, hist.stream_history([doc])])
+            meta.append(("interpolation-chain", d))
         hist.collect_tables(ctx, cases, lambda c: {}, hist.docs_of_history)
         im = ctx.impl(cases)
         mo = ctx.model(cases)
